@@ -623,8 +623,13 @@ struct Run{
     std::vector<double> oc(d2*d2),s0(d2*d2),s1(d2*d2); for(unsigned k=0;k<d2*d2;k++){ oc[k]=r.uniform(-1,1); s0[k]=r.uniform(-1,1); s1[k]=r.uniform(-1,1); }
     double wv[6]; for(int k=0;k<6;k++) wv[k]=r.uniform(-2,2);
     double xq=1.0+r.uniform(0,1),tau=0.7,t0=0.0; bool avg=o["avg"].as_bool(false);
+    // a third form of query, derived from the op's value seed so that existing plans keep their shape: the node-indexed averaging overload
+    // GetExpectationValue(op,irho,node,scale,avr), first by the live solver, then by the second one at one of its two nodes
+    bool nodeavg=o.has("node_avg")?o["node_avg"].as_bool(false):(((uint64_t)o["vs"].as_int(5))%4==3);
+    unsigned node2=(unsigned)(((uint64_t)o["vs"].as_int(5)/4)%2);
+    if(nodeavg){ xq=1.0+node2; c.ctr->add("probe_second_solver_node_averaging_form"); }
     // mirrored: the two solvers are asked at the same x, matrix index and time, one right after the other
-    bool mirror=(d2==nsun && nx>=2 && o["mirror"].as_bool(false) && grid.front()<1.95 && grid.back()>std::max(grid.front(),1.0));
+    bool mirror=(!nodeavg && d2==nsun && nx>=2 && o["mirror"].as_bool(false) && grid.front()<1.95 && grid.back()>std::max(grid.front(),1.0));
     if(mirror){ double lo=std::max(grid.front(),1.0),hi=std::min(grid.back(),2.0); xq=lo+(hi-lo)*r.uniform(0.05,0.95); tau=0.0; t0=live->Get_t(); c.ctr->add("probe_second_solver_mirrors_first"); }
     double got=0;
     int rc=lib_call([&]{
@@ -634,6 +639,7 @@ struct Run{
       s2.Evolve(tau);      // no numerics: only the clock advances
       if(mirror){ squids::SU_vector opm(oc); std::vector<bool> avr(d2*(d2-1)/2+1); SimSolver* keep=c.live;
         double junk=avg?live->GetExpectationValueD(opm,0,xq,1e9,avr):live->GetExpectationValueD(opm,0,xq); (void)junk; (void)keep; }
+      else if(nodeavg){ std::vector<double> om(nsun*nsun,0.25); squids::SU_vector opm(om); std::vector<bool> avr(nsun*(nsun-1)/2+1); double junk=live->GetExpectationValue(opm,0,0,1e9,avr); (void)junk; }
       else if(nx>=2){
         // the first solver has used the same form of query on this thread before the second one does: whatever scratch that form keeps per thread
         // was last shaped by a solver of another dimension
@@ -641,7 +647,8 @@ struct Run{
         double junk=avg?live->GetExpectationValueD(opm,0,xm,1e9,avr):live->GetExpectationValueD(opm,0,xm); (void)junk;
       }
       squids::SU_vector opv(oc);
-      if(avg){ std::vector<bool> avr(d2*(d2-1)/2+1); got=s2.GetExpectationValueD(opv,0,xq,1e9,avr); }
+      if(nodeavg){ std::vector<bool> avr(d2*(d2-1)/2+1); got=s2.GetExpectationValue(opv,0,node2,1e9,avr); }
+      else if(avg){ std::vector<bool> avr(d2*(d2-1)/2+1); got=s2.GetExpectationValueD(opv,0,xq,1e9,avr); }
       else got=s2.GetExpectationValueD(opv,0,xq);
     });
     shp("second_solver"); shp((long)d2);
